@@ -95,9 +95,29 @@ func registerCrypto(e *Engine) {
 		}
 		return array(beCells(pk.addr, 20))
 	})
+	// Ecrecover returns the raw public key; it is only ever passed on to
+	// UnmarshalPubkey, so it is modelled as one opaque cell carrying the address
 	e.reg(cr+"Ecrecover", func(fr *frame, args []value) value {
-		abort("unmodelled", "crypto.Ecrecover (raw public key bytes)")
-		return nil
+		digest, sig := args[0].([]value), args[1].([]value)
+		if len(sig) != 65 {
+			return tuple{[]value(nil), errValue(fr, "invalid signature length")}
+		}
+		d, r, s, v := sigTerms(fr, digest, sig)
+		if !fr.p.branch(fr, simp(Le(v, IntConst64(3))), nil) {
+			return tuple{[]value(nil), errValue(fr, "invalid signature recovery id")}
+		}
+		if !fr.p.branch(fr, App("validsig", SBool, d, r, s, v), nil) {
+			return tuple{[]value(nil), errValue(fr, "recovery failed")}
+		}
+		return tuple{[]value{blobByte{kind: "pubkey", key: addrRange(fr, recoverT(d, r, s, v))}}, nilErr()}
+	})
+	e.reg(cr+"UnmarshalPubkey", func(fr *frame, args []value) value {
+		cells := args[0].([]value)
+		if b, ok := hasBlob(cells); ok && b.kind == "pubkey" {
+			var cell value = hostPubKey{addr: b.key}
+			return tuple{&cell, nilErr()}
+		}
+		return tuple{(*value)(nil), errValue(fr, "invalid secp256k1 public key")}
 	})
 	_ = types.Typ
 }
